@@ -195,6 +195,7 @@ type rpcState struct {
 	cancelled    bool
 	inCall       string // API call the application goroutine is blocked in ("" none)
 	callStart    time.Time
+	idleUntil    time.Time // the application script sleeps until then
 	startedAt    time.Time
 	deadline     time.Time
 	finishedAt   time.Time
@@ -370,12 +371,9 @@ func Run(e *core.Env, sc *Scenario) {
 	dopts := []grpc.DialOption{grpc.WithTransportCredentials(insecure.NewCredentials()), grpc.WithContextDialer(w.dial), grpc.WithDefaultCallOptions(grpc.ForceCodecV2(rawCodec{}))}
 	cc := sc.Client
 	if cc.Static {
-		if cc.StreamWindow > 0 {
-			dopts = append(dopts, grpc.WithStaticStreamWindowSize(cc.StreamWindow))
-		}
-		if cc.ConnWindow > 0 {
-			dopts = append(dopts, grpc.WithStaticConnWindowSize(cc.ConnWindow))
-		}
+		// static means static: without an explicit size the BDP estimator stays on
+		dopts = append(dopts, grpc.WithStaticStreamWindowSize(max(cc.StreamWindow, 65535)))
+		dopts = append(dopts, grpc.WithStaticConnWindowSize(max(cc.ConnWindow, 65535)))
 	} else {
 		if cc.StreamWindow > 0 {
 			dopts = append(dopts, grpc.WithInitialWindowSize(cc.StreamWindow))
@@ -804,6 +802,7 @@ func (w *run) clientRPC(conn *grpc.ClientConn, st *rpcState) {
 			cancel()
 			e.Logf("rpc %d op %d cancel", r.ID, oi)
 		case "sleep":
+			st.idleUntil = time.Now().Add(time.Duration(op.Ns))
 			time.Sleep(time.Duration(op.Ns))
 		case "header":
 			var h metadata.MD
@@ -827,7 +826,10 @@ func (w *run) clientRPC(conn *grpc.ClientConn, st *rpcState) {
 		t0 := time.Now()
 		err := cs.RecvMsg(m)
 		if err == nil {
-			e.Violate("message_after_final_status", "rpc %d: RecvMsg delivered a message of %d bytes after the RPC had ended with %v", r.ID, len(m.B), st.clientStatus.Code())
+			// Not part of the statement (the API leaves a call after a terminal
+			// error undefined): grpc-go still hands out messages that were buffered
+			// before the error. Counted only.
+			e.Probe("message_after_final_status")
 		} else if d := time.Since(t0); d > 0 {
 			e.Probe("recv_after_final_status_took_time")
 		}
